@@ -257,6 +257,7 @@ def sequence_obligations(chk, H, records, prop, attempts=2, steps=2):
                 if d['step'] == 'Failed':
                     d['err'] = {v: k for k, v in ix.Err.items()}[g(E.err)]
                 d['is_last_own_step'] = bool(z3.is_true(m.eval(z3.And(E.has_last, E.eq_last), model_completion=True)))
+                d['looks_like_last_own_step'] = bool(z3.is_true(m.eval(z3.And(E.has_last, E.same_ty, E.same_text), model_completion=True)))
             seq.append(d)
         cnt = {n: m.eval(counters[n], model_completion=True).as_long() for n in summ.COUNTERS}
         return {'n_own_steps': m.eval(n_own, model_completion=True).as_long(), 'events': seq, 'predicted_counters': cnt}
@@ -300,6 +301,7 @@ def to_script(cex):
     lines = ['mode summarize']
     nbg, cur_bg, cur_own = 0, 0, 0
     body = []
+    dups = set()
     for e in cex['events']:
         r = 'r=-' if e['retries'] is None else 'r=%d/%d' % (e['retries']['current'], e['retries']['left'])
         k = e['ev']
@@ -316,15 +318,19 @@ def to_script(cex):
             if err.strip() == 'ambiguousmatch':
                 err = ' panic'          # same summariser path (not NotFound); AmbiguousMatchError is not constructible from outside
             if k == 'Background':
+                if e.get('looks_like_last_own_step') and not e.get('is_last_own_step'):
+                    dups.add('bgdup %d' % cur_bg)
                 body.append('ev bg %d %s%s %s' % (cur_bg, kind, err, r))
                 cur_bg += 1
                 nbg = max(nbg, cur_bg)
             else:
+                if e.get('looks_like_last_own_step') and not e.get('is_last_own_step'):
+                    dups.add('dup %d' % cur_own)
                 body.append('ev step %d %s%s %s' % (cur_own, kind, err, r))
                 cur_own += 1
     lines.append('bg %d' % nbg)
     lines.append('own %d' % cex['n_own_steps'])
-    return '\n'.join(lines + body) + '\n'
+    return '\n'.join(lines + sorted(dups) + body) + '\n'
 
 
 def confirm_native(chk, o, prop, role):
